@@ -323,7 +323,16 @@ The harness parses a generated script (or the source of `Topology._locate`) with
 purely syntactic description: per statement the names read / assigned / mutated and the syntactic form of
 right-hand sides.  Everything that is a *decision* happens here: which arrays are shared allocations, which
 variables may alias them (`roots`), which arrays are mutated inside the parallel loop, and the classification of
-every in-loop statement into a `BStmt`, on which `lockOK` is then decided. -/
+every in-loop statement into a `BStmt`, on which `lockOK` is then decided.
+
+**Alias rule.**  Arrays are identified by *allocation site*, never by variable name.  A variable bound to an expression that
+is not certainly a new object (`RhsKind.view`: `numpy.einsum('...ii->...i', v)`, `numpy.transpose(v, …)`, `v[…]`,
+`v.reshape(…)`, `v.T`, `w = v`, tuple unpacking, any unknown call) gets the union of the allocation sites of all variables
+it reads (`bindVar`, transitively: views of views); a target expression `f(v)[…]` written in place stands for the sites of
+the names outside its subscripts.  An update through a view of a shared array is thus an update of the shared array itself
+(`clsS`: `accum (arrayId site)`), wherever the view was created (`Proofs/C16Alias.lean`, `Props: alias_update_needs_lock`).
+An accumulation into a slice selected by loop-local names is still an accumulation into the array (it needs the lock);
+only plain stores into such slices are private slots. -/
 
 inductive RhsKind where
   | shalloc   -- `parallel.shempty(..)` / `parallel.shzeros(..)`
